@@ -36,21 +36,29 @@ static const void *_cffi_exports[30];
      pthread_mutex_lock(m), stub_set_waiting(0), stub_ev(LIBID, EV_MUTEX_ACQ, 0), 0)
 #define pthread_mutex_unlock(m) \
     (stub_ev(LIBID, EV_MUTEX_REL, 0), pthread_mutex_unlock(m), stub_yield(LIBID, 3), 0)
+/* the lazy creation of the start-up mutex: delays before and after it */
+#define pthread_mutex_init(m, a) \
+    (stub_yield(LIBID, 4), stub_ev(LIBID, EV_MUTEX_INIT, 0), pthread_mutex_init(m, a), stub_yield(LIBID, 5), 0)
 
 #include "_embedding.h"
 
 #undef __sync_bool_compare_and_swap
 #undef pthread_mutex_lock
 #undef pthread_mutex_unlock
+#undef pthread_mutex_init
 
-/* what _cffi_backend's cffi_call_python() would be */
+/* what _cffi_backend's cffi_call_python() would be: the "Python function"
+   reads its int argument and writes a result of externpy->size_of_result
+   bytes, none of them zero (stub_result_byte) */
 static void real_call_python(struct _cffi_externpy_s *externpy, char *args)
 {
     int arg;
+    size_t i;
     memcpy(&arg, args, sizeof(int));
     stub_ev(LIBID, EV_CALL_PYTHON, arg);
-    arg = 1000 + 100 * LIBID + arg;
-    memcpy(args, &arg, sizeof(int));
+    stub_in_extern_python(LIBID);
+    for (i = 0; i < externpy->size_of_result; i++)
+        args[i] = (char)stub_result_byte(LIBID, arg, (int)i);
 }
 
 PyMODINIT_FUNC _CFFI_PYTHON_STARTUP_FUNC(void)
@@ -60,17 +68,34 @@ PyMODINIT_FUNC _CFFI_PYTHON_STARTUP_FUNC(void)
     return NULL;
 }
 
-/* an exported  extern "Python" int fn(int)  as the code generator writes it */
-int CAT(CAT(lib, LIBID), _call)(int a0)
+/* the exported  extern "Python" <T> fn<k>(int)  functions as the code
+   generator writes them, for result types of 4, 1, 8 and 24 bytes (int, char,
+   long long, a struct); the argument/result buffer has max(8, sizeof(T))
+   bytes.  The result bytes are copied to out[]. */
+static struct _cffi_externpy_s externs[STUB_NKINDS] = {
+    { "fn" STR(LIBID) "_int", 4, 0, 0 },
+    { "fn" STR(LIBID) "_char", 1, 0, 0 },
+    { "fn" STR(LIBID) "_longlong", 8, 0, 0 },
+    { "fn" STR(LIBID) "_struct24", 24, 0, 0 },
+};
+
+void CAT(CAT(lib, LIBID), _call)(int kind, int a0, unsigned char *out)
 {
-    static struct _cffi_externpy_s e = { "fn" STR(LIBID), sizeof(int), 0, 0 };
-    char a[8];
-    int result;
+    char a[24];
     memset(a, 0x5a, sizeof(a));
     memcpy(a, &a0, sizeof(int));
     stub_ev(LIBID, EV_CALL_ENTER, a0);
-    _cffi_call_python(&e, a);
-    memcpy(&result, a, sizeof(int));
-    stub_ev(LIBID, EV_CALL_RETURN, result);
-    return result;
+    _cffi_call_python(&externs[kind], a);
+    memcpy(out, a, externs[kind].size_of_result);
+    stub_ev(LIBID, EV_CALL_RETURN, kind);
+}
+
+/* the manual entry point: user C code calling cffi_start_python() */
+int CAT(CAT(lib, LIBID), _start)(void)
+{
+    int r;
+    stub_ev(LIBID, EV_START_ENTER, 0);
+    r = cffi_start_python();
+    stub_ev(LIBID, EV_START_RETURN, r);
+    return r;
 }
